@@ -39,15 +39,29 @@ type specVer struct {
 }
 
 type mvSpec struct {
+	// dropFloor[key] = newest commit timestamp when a DropPrefix covering key returned: reads
+	// of that key at or below it are not judged (DropPrefix leaves old versions of a key whose
+	// newest version is already dead; the property only speaks about snapshots from then on)
+	dropFloor  map[string]uint64
+	maxTs      uint64
 	hist       map[string][]specVer
 	seq        int
 	maxDiscard uint64 // highest discard watermark any compaction has run with
 	compacted  bool
 }
 
-func newSpec() *mvSpec { return &mvSpec{hist: map[string][]specVer{}} }
+func newSpec() *mvSpec { return &mvSpec{hist: map[string][]specVer{}, dropFloor: map[string]uint64{}} }
+
+// judged: reads of key at ts are promised by the history (not in the shadow of a DropPrefix).
+func (s *mvSpec) judged(key []byte, ts uint64) bool {
+	f, ok := s.dropFloor[string(key)]
+	return !ok || ts > f
+}
 
 func (s *mvSpec) add(key []byte, v specVer) {
+	if v.ver > s.maxTs {
+		s.maxTs = v.ver
+	}
 	s.seq++
 	v.seq = s.seq
 	s.hist[string(key)] = append(s.hist[string(key)], v)
@@ -166,6 +180,7 @@ func (s *mvSess) open(kv map[string]string) (string, error) {
 	tblsz := kvInt(kv, "tblsz", 2<<20)
 	basesz := kvInt(kv, "basesz", 10<<20)
 	comp := kvInt(kv, "comp", 0)
+	memsz := kvInt(kv, "memsz", 1<<20)
 	s.dir = ""
 	var opt badger.Options
 	if s.inmem {
@@ -177,7 +192,7 @@ func (s *mvSess) open(kv map[string]string) (string, error) {
 	opt = opt.WithLoggingLevel(badger.ERROR).WithNumCompactors(0).
 		WithNumLevelZeroTables(100).WithNumLevelZeroTablesStall(200).
 		WithNumVersionsToKeep(s.keep).WithValueThreshold(int64(s.thr)).WithMaxLevels(s.levels).
-		WithMemTableSize(1 << 20).WithCompactL0OnClose(false).WithDetectConflicts(detect).
+		WithMemTableSize(int64(memsz)).WithCompactL0OnClose(false).WithDetectConflicts(detect).
 		WithBaseTableSize(int64(tblsz)).WithBaseLevelSize(int64(basesz)).WithBlockSize(256).
 		WithMetricsEnabled(false).WithValueLogFileSize(1 << 20).WithLevelSizeMultiplier(2)
 	switch comp {
@@ -203,8 +218,8 @@ func (s *mvSess) open(kv map[string]string) (string, error) {
 	s.spec = newSpec()
 	s.lastCts = 0
 	mc, ms, _ := badger.VerifLimits(s.db)
-	return fmt.Sprintf("reset managed=%d keep=%d thr=%d inmem=%d levels=%d detect=%d tblsz=%d basesz=%d comp=%d now=%d maxcount=%d maxsize=%d vlogsz=%d",
-		b2i(s.managed), s.keep, s.thr, b2i(s.inmem), s.levels, b2i(detect), tblsz, basesz, comp, s.now, mc, ms, 1<<20), nil
+	return fmt.Sprintf("reset managed=%d keep=%d thr=%d inmem=%d levels=%d detect=%d tblsz=%d basesz=%d comp=%d memsz=%d now=%d maxcount=%d maxsize=%d vlogsz=%d",
+		b2i(s.managed), s.keep, s.thr, b2i(s.inmem), s.levels, b2i(detect), tblsz, basesz, comp, memsz, s.now, mc, ms, 1<<20), nil
 }
 
 func b2i(b bool) int {
@@ -459,6 +474,11 @@ func execMvcc(intents []string, st *Stats) (final, outs, oracle []string) {
 				err = tx.t.Commit()
 			}
 			badger.VerifSyncMarks(s.db)
+			// a full memtable is rotated (and flushed by the background flusher) BEFORE this
+			// commit's entries are written: report that flush ahead of the commit line
+			badger.VerifWaitFlushed(s.db)
+			nRot := s.emitEventsX(emit, fail, "", true)
+			_ = nRot
 			wasDone := tx.done
 			switch {
 			case err == nil && len(tx.pending) > 0 && !wasDone:
@@ -560,6 +580,9 @@ func (s *mvSess) judgeGet(tx *mvTxn, key []byte, out string, fail func(string, s
 		if s.spec.compacted && tx.readTs < s.spec.maxDiscard {
 			return
 		}
+		if !s.spec.judged(key, tx.readTs) {
+			return
+		}
 		v, ok := s.spec.newest(key, tx.readTs, 0)
 		if !ok || v.dead(s.now) {
 			want = "notfound"
@@ -639,7 +662,7 @@ func (s *mvSess) judgeStable(what string, pre []readSnap, fail func(string, stri
 		if ok && !v.dead(s.now) {
 			want = fmt.Sprintf("%d:%d:%d:%s", v.ver, v.userMeta, v.exp, hx(v.val))
 		}
-		if now != want && !(s.spec.compacted && r.ts < s.spec.maxDiscard) {
+		if now != want && !(s.spec.compacted && r.ts < s.spec.maxDiscard) && s.spec.judged([]byte(r.key), r.ts) {
 			fail("C12-read-wrong", fmt.Sprintf("after %s key %s at ts=%d reads %q, history says %q", what, hx([]byte(r.key)), r.ts, now, want))
 			return
 		}
@@ -820,6 +843,13 @@ func (s *mvSess) dropPrefix(ws []string, emit func(string, string), fail func(st
 		}
 		now := s.readAt([]byte(r.key), r.ts)
 		if has(r.key) {
+			// "no key with the prefix is visible": judged for snapshots taken from now on (the
+			// newest timestamp). A key whose newest version is already a delete/expired marker is
+			// skipped by DropPrefix (nothing visible to drop); its older versions stay readable
+			// at old managed-mode timestamps, which the property does not speak about.
+			if r.ts != math.MaxUint64 {
+				continue
+			}
 			if now != "absent" {
 				fail("C29-prefix-survived", fmt.Sprintf("after DropPrefix key %s still reads %q at ts=%d", hx([]byte(r.key)), now, r.ts))
 				return
@@ -832,6 +862,7 @@ func (s *mvSess) dropPrefix(ws []string, emit func(string, string), fail func(st
 	for k := range s.spec.hist {
 		if has(k) {
 			delete(s.spec.hist, k)
+			s.spec.dropFloor[k] = s.spec.maxTs
 		}
 	}
 }
@@ -965,6 +996,11 @@ func (s *mvSess) iterate(tx *mvTxn, kv map[string]string, fail func(string, stri
 	// outside the prefix are compared with the model only, DESIGN §8.3).
 	seekIn := seek != "" && seek != "rewind" && bytes.HasPrefix(unhx(seek), opt.Prefix)
 	judged := len(opt.Prefix) == 0 || seekIn || ((seek == "" || seek == "rewind") && !opt.Reverse)
+	for _, f := range s.spec.dropFloor {
+		if tx.readTs <= f {
+			judged = false // in the shadow of a DropPrefix (see mvSpec.dropFloor)
+		}
+	}
 	if judged && !opt.AllVersions && !(s.spec.compacted && tx.readTs < s.spec.maxDiscard) {
 		want := s.specScan(tx, opt, seek)
 		if strings.Join(want, ";") != strings.Join(items, ";") {
@@ -1075,9 +1111,16 @@ func genMvccSession(rng *rand.Rand, st *Stats) []string {
 	tblsz := pick(rng, 2<<20, 2<<20, 2048, 600)
 	basesz := pick(rng, 10<<20, 4096, 1024)
 	comp := pick(rng, 0, 0, 1, 2)
+	memsz := pick(rng, 1<<20, 1<<20, 1<<20, 65536)
+	if memsz == 65536 {
+		// small memtables: natural rotations inside commits, L0 tables that count as "big"
+		// (>= 2*MemTableSize) after an L0->L0 merge; ValueThreshold must stay below 15% of it
+		thr = pick(rng, 16, 64, 8192)
+		comp = 0
+	}
 	var ops []string
-	ops = append(ops, fmt.Sprintf("reset managed=%d keep=%d thr=%d inmem=%d levels=%d detect=1 tblsz=%d basesz=%d comp=%d",
-		b2i(managed), keep, thr, b2i(inmem), levels, tblsz, basesz, comp))
+	ops = append(ops, fmt.Sprintf("reset managed=%d keep=%d thr=%d inmem=%d levels=%d detect=1 tblsz=%d basesz=%d comp=%d memsz=%d",
+		b2i(managed), keep, thr, b2i(inmem), levels, tblsz, basesz, comp, memsz))
 	st.Inc(fmt.Sprintf("session:managed=%v,inmem=%v,keep=%d", managed, inmem, keep))
 	nkeys := 2 + rng.Intn(7)
 	var keys [][]byte
@@ -1192,7 +1235,13 @@ func genMvccSession(rng *rand.Rand, st *Stats) []string {
 				o += " prefix=" + hx(genUserKey(rng, 1, 2))
 			}
 			if rng.Intn(3) == 0 {
-				o += " seek=" + hx(genUserKey(rng, 1, 3))
+				sk := genUserKey(rng, 1, 3)
+				if i := strings.Index(o, " prefix="); i >= 0 {
+					// with Prefix set, seek inside the prefix (seeks outside it depend on which
+					// tables the prefix-based table picking leaves out; not part of the property)
+					sk = append(unhx(o[i+8:]), sk[:rng.Intn(len(sk))]...)
+				}
+				o += " seek=" + hx(sk)
 			} else {
 				o += " seek=rewind"
 			}
@@ -1250,6 +1299,38 @@ func genMvccSession(rng *rand.Rand, st *Stats) []string {
 			if rng.Intn(2) == 0 {
 				ops = append(ops, fmt.Sprintf("compact this=0 id=0 adj=%s", pick(rng, "0.5", "0.5", "1.5")))
 			}
+		case r < 99 && memsz == 65536 && rng.Intn(2) == 0:
+			// filler: big values so that tables grow past the "already big" limit of L0->L0
+			nb := 6 + rng.Intn(20)
+			for j := 0; j < nb; j++ {
+				rts := uint64(0)
+				if managed {
+					rts = math.MaxUint64
+				}
+				ops = append(ops, fmt.Sprintf("begin %d 1 %d", nextID, rts))
+				k := append([]byte("zz"), byte(rng.Intn(4)))
+				if rng.Intn(3) == 0 {
+					k = keys[rng.Intn(len(keys))]
+				}
+				sz := 3000 + rng.Intn(4500)
+				if inmem && sz >= thr {
+					sz = thr - 1
+				}
+				v := make([]byte, sz)
+				rng.Read(v)
+				ops = append(ops, fmt.Sprintf("set %d %s 0 0 0 %s 0", nextID, hx(k), hx(v)))
+				c := uint64(0)
+				if managed {
+					cts++
+					c = cts
+				}
+				ops = append(ops, fmt.Sprintf("commit %d %d", nextID, c))
+				nextID++
+				if rng.Intn(5) == 0 {
+					ops = append(ops, "flush")
+				}
+			}
+			ops = append(ops, fmt.Sprintf("compact this=0 id=0 adj=%s", pick(rng, "0.5", "0.5", "1.5")))
 		case r < 99:
 			if rng.Intn(3) == 0 {
 				// DropPrefix / DropAll need no open transaction to be meaningful; close them so
